@@ -92,6 +92,7 @@ def base_system(b, rng):
     c['diam_idiom'] = str(rng.choice(['direct', 'sweep']))
     c['num_style'] = str(rng.choice(['float', 'np', 'int']))
     c['reuse'] = bool(rng.random() < 0.3)
+    c['domain_idiom'] = str(rng.choice(['direct', 'setter', 'dk', 'length']))
     return c
 
 
